@@ -9,6 +9,7 @@
 """
 import os
 import sys
+import time
 
 sys.path.insert(0, os.path.dirname(os.path.dirname(os.path.abspath(__file__))))
 sys.path.insert(0, os.path.dirname(os.path.abspath(__file__)))
@@ -19,7 +20,8 @@ import c20
 
 PID = "C11"
 THEOREMS = ["field_get_set", "field_frame", "field_rejects", "register_rejects", "reg_write_defines_fields",
-            "reg_get_set", "group_views_agree", "group_write_defines_subs",
+            "reg_get_set", "group_views_agree", "group_write_defines_subs", "export_parse_id",
+            "config_roundtrip_partial",
             "queries_pure", "run_preserves_wf", "rejected_write_keeps_state",
             "alt_width_reverse_refuted", "alt_width_group_stale_refuted", "alt_width_revsub_refuted",
             "alt_width_big_endian_export_refuted"]
@@ -766,12 +768,18 @@ def oracle_case(B, ops, snap0, trace):
                         continue     # bits outside every bit-field are not part of a bit-field configuration
                     if op[1] and any(s_["reset"] for s_ in r["subs"]):
                         continue     # "difference to reset" is undefined for a group: its own reset value ignores the parts
+                    if any(spec_int(VS(e[0])) is not None or e[0].startswith("RAW:") for f in r["fields"] for e in f["enums"]):
+                        continue     # an enum that is named like a number cannot be told from the number in a configuration
                     if op[1] and any(f["proc"] and f["reset"] for f in r["fields"]):
                         continue
                     if other.regs[i] != after.regs[i]:
                         cls = klass(B, (i,)) + ("+diff" if op[1] else "")
                         if "alt-widths" in cls:
-                            cls += ":" + alt_mechs(B, (i,), fresh0, after.log((i,)) if is_int(after.log((i,))) else None, 0)
+                            mech = alt_mechs(B, (i,), fresh0, after.log((i,)) if is_int(after.log((i,))) else None, 0)
+                            if mech == "unexplained" and "reverse" in cls and other.log((i,)) == after.log((i,)):
+                                # same value, another stored form: the reversal width depends on the magnitude of what was stored
+                                mech = "reversed-value-selects-another-width"
+                            cls += ":" + mech
                         here.append((f"config-roundtrip:{cls}", f"{name}: {r['name']} is {after.regs[i][2:4]}, after loading its own configuration {other.regs[i][2:4]}"))
         for (sig, msg) in here:
             hits.append((sig, msg, idx))
@@ -782,7 +790,7 @@ def oracle_case(B, ops, snap0, trace):
 # ====================================================================================== driver
 def gen_cases(tier, rng):
     g = Gen(rng, tier)
-    n = 2400 if tier == "thorough" else 260
+    n = 2400 if tier == "thorough" else 200
     cases = []
     for _ in range(n):
         cases.append({"layout": g.layout(), "nops": rng.choice([1, 2, 3, 5, 8, 8, 12, 12, 16, 20, 30])})
@@ -807,6 +815,38 @@ def witness_cases():
     return w
 
 
+def snap_diff(prev, cur):
+    """the encoding of Model/RegsModel.v snap_diff, computed from two full snapshots of the implementation"""
+    pn, pr = prev[1][0], prev[1][1][1]
+    cn, cr = cur[1][0], cur[1][1][1]
+    if pn != cn:
+        return VL([cn, VL([]), cur])
+    return VL([cn, VL([VL([VI(i), c]) for i, (p, c) in enumerate(zip(pr, cr)) if p != c])])
+
+
+def exhaustive_cases(W, reverse, big):
+    """every bit-field position (offset, width) of a W-bit register, boundary values through every write path"""
+    out = []
+    for off in range(W):
+        for w in range(1, W - off + 1):
+            fields = []
+            if off:
+                fields.append({"name": "A", "uid": "a", "width": off, "proc": None, "enums": []})
+            k = len(fields)
+            fields.append({"name": "F", "uid": "f", "width": w, "proc": None, "enums": [["TOP", (1 << w) - 1]]})
+            if off + w < W:
+                fields.append({"name": "B", "uid": "b", "width": W - off - w, "proc": None, "enums": []})
+            lay = {"big": big, "fuse": 0, "regs": [{"name": "R", "uid": "r", "offset": 0, "width": W, "reset": 0, "hidden": 0,
+                                                     "reverse": reverse, "alt": None, "hex": 0, "subs": [], "fields": fields,
+                                                     "extra_fields": []}]}
+            ones = (1 << W) - 1
+            ops = [(1, (0,), VI(ones), 0), (2, (0,), k, VI(0), 0, 0), (9, (0,), 0), (2, (0,), k, VI(1 << w), 0, 0),
+                   (2, (0,), k, VI(-1), 0, 0), (1, (0,), VI(0), 0), (3, (0,), k, VS("TOP"), 0), (9, (0,), 1),
+                   (2, (0,), k, VS(hex(1 << (w - 1))), 0, 0), (18,), (19, 0), (1, (0,), VI(1 << W), 0)]
+            out.append((lay, ops))
+    return out
+
+
 def same_out(a, b):
     if a[0] == "e" or b[0] == "e":
         return a[0] == b[0] and a[1] == b[1]
@@ -816,6 +856,10 @@ def same_out(a, b):
 def run(tier):
     rep = vlib.Report(PID, tier)
     rng = vlib.Rng(vlib.seed())
+    T0 = time.time()
+
+    def lap(what):
+        vlib.log(f"  [{time.time() - T0:6.1f} s] {what}")
     try:
         regen_c11.regen()
         rep.obligation("translate:spsdk/utils/registers.py->Gen/GenRegs.v", True)
@@ -824,10 +868,16 @@ def run(tier):
     model_ok, mout = vlib.coq_make(["Model/RegsModel.vo"])
     vlib.check_theorems(rep, PID, THEOREMS, ["Proofs/RegsProofs.vo"])
     vlib.audit(rep)
+    lap("model and theorems checked")
 
     # ---------------- pass 1: build the objects, learn the layouts as built
     g, cases = gen_cases(tier, rng)
     wit = witness_cases()
+    nwit = len(wit)
+    if tier == "thorough":
+        wit = wit + exhaustive_cases(16, 0, 0) + exhaustive_cases(16, 1, 1) + exhaustive_cases(8, 1, 0)
+    else:
+        wit = wit + exhaustive_cases(8, 0, 1) + exhaustive_cases(8, 1, 0)
     layouts = [w[0] for w in wit] + [c["layout"] for c in cases]
     r0 = vlib.run_impl("c11_impl.py", {"cases": [{"layout": l, "ops": []} for l in layouts]}, timeout=3000)["results"]
     plan = []
@@ -860,6 +910,7 @@ def run(tier):
             tr.append((ov, vlib.vj(s)))
         impl.append((snap0, tr, vlib.vj(res["built"])))
 
+    lap("implementation runs done")
     # ---------------- oracles on the implementation's own outputs
     nops_total, nhits = 0, 0
     opkinds = {}
@@ -879,6 +930,7 @@ def run(tier):
                          "failing_op_index": idx, "signature": sig, "message": msg,
                          "how": "build the layout with tools/impl/c11_impl.py (build()), apply ops in order"})
 
+    lap("oracles done")
     # ---------------- correspondence with the Coq model
     ndis = 0
     if model_ok:
@@ -895,14 +947,16 @@ def run(tier):
                 elif m[1][0] != snap0:
                     bad = ("fresh snapshot", snap0, m[1][0])
                 else:
+                    prev = snap0
                     for idx, ((o, s), mv) in enumerate(zip(tr, m[1][1:])):
                         mo, ms = mv[1]
                         if not same_out(o, mo):
                             bad = (f"output of op {idx} {OPN[ops[idx][0]]}", o, mo)
                             break
-                        if s != ms:
-                            bad = (f"snapshot after op {idx} {OPN[ops[idx][0]]}", "...", "...")
+                        if snap_diff(prev, s) != ms:
+                            bad = (f"snapshot after op {idx} {OPN[ops[idx][0]]}", snap_diff(prev, s), ms)
                             break
+                        prev = s
                 if bad:
                     ndis += 1
                     if ndis <= 5:
@@ -916,20 +970,28 @@ def run(tier):
     else:
         rep.obligation("correspondence:model builds", False, mout[-2000:])
 
+    lap("correspondence done")
     # ---------------- coverage accounting
-    distinct = set()
-    for (lay, bv, B, ops, _, _), (snap0, tr, _) in zip(plan, impl):
-        changed = any(tr[i][1] != (tr[i - 1][1] if i else snap0) for i in range(len(tr)))
-        if changed:
-            distinct.add(repr((bv, [op_model(o) for o in ops])))
+    def account(name, lo, hi, exhaustive):
+        distinct, nops = set(), 0
+        for (lay, bv, B, ops, _, _), (snap0, tr, _) in list(zip(plan, impl))[lo:hi]:
+            nops += len(ops)
+            if any(tr[i][1] != (tr[i - 1][1] if i else snap0) for i in range(len(tr))):
+                distinct.add(repr((bv, [op_model(o) for o in ops])))
+        samples = [{"layout": plan[i][0], "ops": [op_replay(plan[i][2], o) for o in plan[i][3]][:6]} for i in range(lo, min(hi, lo + 2))]
+        rep.add_stream(name, hi - lo, len(distinct), samples=samples, exhaustive=exhaustive, extra={"operations": nops})
     classes = {}
     for (lay, bv, B, ops, _, _) in plan:
         for t in all_targets(B):
             c = klass(B, t)
             classes[c] = classes.get(c, 0) + 1
-    samples = [{"layout": plan[i][0], "ops": [op_replay(plan[i][2], o) for o in plan[i][3]][:6]} for i in range(len(wit), min(len(plan), len(wit) + 2))]
-    rep.add_stream("operation sequences on random layouts (+ fixed witnesses)", len(plan), len(distinct), samples=samples, exhaustive=False,
-                   extra={"operations": nops_total, "operation_kinds": opkinds, "register_classes": classes, "oracle_hits": nhits})
+    account("fixed witnesses of the recorded findings", 0, nwit, True)
+    account("every bit-field position of a small register x boundary values x every write path", nwit, len(wit), True)
+    account("operation sequences on random layouts", len(wit), len(plan), False)
+    rep.coverage["operation_kinds"] = opkinds
+    rep.coverage["register_classes"] = classes
+    rep.coverage["oracle_hits"] = nhits
+    rep.coverage["operations"] = nops_total
     return rep.finish(
         rule="layouts (1-4 top-level registers, widths 8..512, bit-fields tiling or not, enums, SHIFT_RIGHT processors, groups "
              "normal/reversed, reversed bytes, alternative widths, Registers and FuseRegisters) and operation sequences of length "
